@@ -488,7 +488,9 @@ def run(c: Check):
               "overlap with pre-tasks), 30% with a first instance() call on another node sharing the ObjectStore; "
               "classes replaced with probability 0/0.25/0.5/1 per case by disguised ones whose objects are falsy "
               "(__len__ 0, __bool__ False) or equal/hashed by content (NZ NQ MB PZ PB PQ TZ); "
-              "a directed probe (init_tasks=[p, p]) tells whether the loader runs each lightweight task once; "
+              "a directed probe (init_tasks=[p, p]) tells whether the loader runs each lightweight task once, one whether "
+              "an ObjectStore runs a pre-task once, one creates and drops 300 configurations on one store; each case also "
+              "goes through one of from_state_dict / load / from_task_dir (as_instance=True); "
               "each case goes through instance() and through the parameter file; non-trivial = a shared "
               "configuration or a cycle, and at least one pre-task; distinct by heap")
     c.build()
